@@ -115,6 +115,8 @@ def plan(tier, seed):
         out.append({'kind': 'circus-section', 'seed': seed, 'idx': i})
     for i in range(32 if tier == 'quick' else 320):
         out.append({'kind': 'long-gap', 'seed': seed, 'idx': i})
+    for i in range(4 if tier == 'quick' else 20):
+        out.append({'kind': 'empty-arbiter', 'seed': seed, 'idx': i})
     return out
 
 
@@ -219,6 +221,9 @@ def run_case(spec):
         return res
     if spec.get('kind') == 'long-gap':
         long_gap(spec, res)
+        return res
+    if spec.get('kind') == 'empty-arbiter':
+        empty_arbiter(spec, res)
         return res
     if 'B' in spec:                     # concrete (replay)
         h = spec['h']
@@ -415,6 +420,44 @@ def _diff(a, b):
     while i < min(len(ja), len(jb)) and ja[i] == jb[i]:
         i += 1
     return {'ref': ja[max(0, i - 150):i + 150], 'run': jb[max(0, i - 150):i + 150]}
+
+
+def empty_arbiter(spec, res):
+    """the boundary of "several watchers": the last watcher removed (or none configured); the periodic check must
+    still end and give the slot back"""
+    rnd = rng_for(spec['seed'], 'C10-empty', spec['idx'])
+    n0 = spec['idx'] % 3            # 0, 1 or 2 watchers to begin with
+    h = {'kill_latency': 0.0, 'watchers': [{'name': 'w%d' % i, 'numprocesses': 1, 'graceful_timeout': 0.1}
+                                           for i in range(n0)]}
+    w = simhist.new_world(h)
+    w.nest = {'n': 0, 'max': 0, 'entered': 0, 'overlaps': [], 'open': [], 'tokens': [], 'work': [], 'orphans': []}
+    nv = len(res.viol)
+
+    @gen.coroutine
+    def go():
+        yield simhist.boot(w, h)
+        yield w.settle(30)
+        for i in range(n0):
+            yield w.call('rm', name='w%d' % i, waiting=True)
+            yield w.settle(30)
+        for k_ in range(rnd.randint(1, 3)):
+            w.loop.add_callback(w.check)
+            yield w.advance(1.0)
+        yield w.settle(30)
+        pr = yield w.call('add', name='late', cmd='w_late', start=True, waiting=True)
+        res.obs['wedge_probes'] += 1
+        res.obs['empty_arbiter_cases'] += 1
+        if pr is None or pr.get('status') != 'ok':
+            res.violation('C10/wedged-after:check[no-watcher-left]', 'with no watcher left (%d removed) the periodic check '
+                          'ran; afterwards add was answered %s; slot=%s' % (n0, str(pr)[:160], w.arb._exclusive_running_command))
+        res.nontrivial(repr(('empty-arbiter', n0)))
+    try:
+        w.run(go)
+        for v in res.viol[nv:]:
+            v['spec'] = dict(spec)
+    finally:
+        w.close()
+    res.sample = {'case': 'periodic check of an arbiter without watchers', 'watchers_removed_first': n0}
 
 
 def long_gap(spec, res):
